@@ -134,6 +134,8 @@ class TWorld(object):
     self.server_log = []
     self.H = hello()
     world.SHIMS['thriftmux'].randint_domain = lambda a, b: [a]
+    if params.get('tag_jump'):
+      world.tag_jump(*params['tag_jump'])
     self.proto = params.get('proto', 'mux')
     if self.proto == 'kafka':
       self.net.add_endpoint('h0', 1000, lambda net, c: KafkaTagPeer(net, c, self.server_log))
@@ -381,7 +383,7 @@ class TWorld(object):
         continue
       peak = self.peak_by_gen.get(gen, 0)
       bound = 1 + peak + self.adversarial_used
-      if max(tags) > bound and max(tags) <= MAXTAG:
+      if max(tags) > bound and max(tags) <= MAXTAG and not self.p.get('tag_jump'):
         self.v('C11.no-reuse', 'connection c%d: highest tag %d > 1 + peak number of tag-holding requests %d (+%d bogus frames): '
                'answered tags are not reused (tags used: %r)' % (c.id, max(tags), peak, self.adversarial_used, tags))
 
@@ -452,6 +454,10 @@ def scenarios(tier):
               {'ops': [['req', 'a', True], ['req', 'b', True], ['req', 'c']], 'max_adversarial': 1, 'max_preempt': 1, '_bound': 2}))
   out.append(('send buffer full while 3 requests queue up, then drains; one more request',
               {'ops': [['block'], ['req', 'x'], ['req', 'a', True], ['req', 'b'], ['unblock'], ['req', 'c']], 'max_adversarial': 1}))
+  # tags beyond 16 bits: the counter jumps as if the tags in between were held by requests that were never answered
+  for to in (65536, 65537, 65538):
+    out.append(('3 requests, the tag counter jumps from 2 to %d' % to,
+                {'ops': [['req', 'a', True], ['req', 'b'], ['req', 'c', True]], 'max_adversarial': 1, 'tag_jump': [2, to], '_bound': 2}))
   if tier == 'thorough':
     out.append(('5 requests', {'ops': [['req', 'a', True], ['req', 'b'], ['req', 'c', True], ['req', 'd'], ['req', 'e']], 'max_adversarial': 2}))
   return out
